@@ -18,3 +18,21 @@ Proof.
   intros T N. vm_compute. split; [reflexivity | discriminate].
 Qed.
 Print Assumptions C02_IchimokuCloud_lagging_refuted.
+
+(* C05: Alligator and SMMA strategies shift their actions by commonPeriod while their streams lag commonPeriod - 1:
+   n snapshots (n >= warm-up) yield n + 1 actions, every recommendation one position late. *)
+Theorem C05_AlligatorStrategy_refuted :
+  exists (n : nat),
+    forall (T : Type) (N : Num T),
+      let a := strategy_trend_AlligatorStrategy_Compute (I:=asset_Snapshot (T:=T)) strategy_trend_NewAlligatorStrategy (EIn 0) in
+      (Z.to_nat (eshift_of a) <= n)%nat /\ elen a [n] = S n.
+Proof. exists 30%nat. intros T N. vm_compute. split; [|reflexivity]. repeat constructor. Qed.
+
+Theorem C05_SmmaStrategy_refuted :
+  exists (n : nat),
+    forall (T : Type) (N : Num T),
+      let a := strategy_trend_SmmaStrategy_Compute (I:=asset_Snapshot (T:=T)) strategy_trend_NewSmmaStrategy (EIn 0) in
+      (Z.to_nat (eshift_of a) <= n)%nat /\ elen a [n] = S n.
+Proof. exists 60%nat. intros T N. vm_compute. split; [|reflexivity]. repeat constructor. Qed.
+Print Assumptions C05_AlligatorStrategy_refuted.
+Print Assumptions C05_SmmaStrategy_refuted.
